@@ -8,13 +8,14 @@ import finam as fm
 
 # ------------------------------------------------------------------ spec generation
 def gen_structured(tape, *, kinds=("uniform", "rectilinear", "esri"), max_dim=3, max_len=5, min_len=1,
-                   allow_degenerate=True):
+                   allow_degenerate=True, dim=None):
+    kinds = [k for k in kinds if dim in (None, 2) or k != "esri"]
     kind = tape.choice(list(kinds))
     if kind == "esri":
         return {"type": "esri", "ncols": tape.rng_int(1, max_len - 1), "nrows": tape.rng_int(1, max_len - 1),
                 "cellsize": tape.choice([1.0, 0.5, 2.0]), "xll": tape.choice([0.0, 10.0, -3.5]),
                 "yll": tape.choice([0.0, -2.0, 7.0]), "order": tape.choice(["C", "F"])}
-    dim = tape.rng_int(1, max_dim)
+    dim = tape.rng_int(1, max_dim) if dim is None else dim
     lo = 1 if allow_degenerate else 2
     dims = [tape.rng_int(max(lo, min_len), max_len) for _ in range(dim)]
     if all(d == 1 for d in dims) and not allow_degenerate:
